@@ -260,11 +260,14 @@ fn rule_zero_to_const(
     memory_out: &mut AvailableValueMap<MemoryLocation>,
     memory_in: &AvailableValueMap<MemoryLocation>,
 ) {
+    // Only a description that is still in the outs is rewritten: if this node
+    // has overwritten the register or the slot, the description that came in
+    // no longer says anything about it.
     for (reg, val) in available_in {
         match val {
             AvailableValue::OriginalRegisterWithScalar(r, i)
             | AvailableValue::RegisterWithScalar(r, i) => {
-                if r.is_const_zero() {
+                if r.is_const_zero() && available_out.get(reg) == Some(val) {
                     available_out.insert(*reg, AvailableValue::Constant(*i));
                 }
             }
@@ -275,7 +278,7 @@ fn rule_zero_to_const(
         match val {
             AvailableValue::OriginalRegisterWithScalar(r, i)
             | AvailableValue::RegisterWithScalar(r, i) => {
-                if r.is_const_zero() {
+                if r.is_const_zero() && memory_out.get(mem_loc) == Some(val) {
                     memory_out.insert(mem_loc.clone(), AvailableValue::Constant(*i));
                 }
             }
